@@ -418,10 +418,62 @@ def parseCfg (t : List String) : Option Cfg := do
   pure { cap := cap, width := width, topInCap := ti, topOutCap := to, botInCap := bi, botOutCap := bo,
          ctlInCap := ci, ctlOutCap := co, bottomUnit := bu ≠ 0 }
 
+/-! ## Fields the ROB never reads (`c15 fields ; <req> ; <req'>`)
+
+`mem.ReadReq` / `mem.WriteReq` also carry `Info` and the requester's `MsgMeta.TrafficBytes`;
+`duplicateReadReq` / `duplicateWriteReq` build the forwarded message with the akita builders
+from address, size / data, mask and PID only, so `Info` is nil, `CanWaitForCoalesce` is false
+and `TrafficBytes` is recomputed (12 + number of data bytes). -/
+
+structure ReqX where
+  req : Req
+  info : Nat          -- `Info`: 0 = nil
+  trafficBytes : Nat  -- as set by the requester
+deriving Repr
+
+structure BReqX where
+  b : BReq
+  info : Nat
+  trafficBytes : Nat
+deriving Repr, DecidableEq
+
+def dupReqX (n : Nat) (x : ReqX) : BReqX :=
+  { b := dupReq n x.req, info := 0, trafficBytes := 12 + (dupReq n x.req).data.length }
+
+def parseReqX (t : List String) : Option ReqX :=
+  match t with
+  | [k, src, pid, addr, size, data, mask, cwc, info, tb] =>
+    match src.toNat?, pid.toNat?, addr.toNat?, size.toNat?, parseData data, parseBits mask,
+          info.toNat?, tb.toNat? with
+    | some src, some pid, some addr, some size, some data, some mask, some info, some tb =>
+      if k = "R" then
+        some ⟨{ id := 0, write := false, addr := addr, size := size, data := [], mask := [], pid := pid,
+                cwc := cwc = "1", src := src }, info, tb⟩
+      else if k = "W" then
+        some ⟨{ id := 0, write := true, addr := addr, size := 0, data := data, mask := mask, pid := pid,
+                cwc := cwc = "1", src := src }, info, tb⟩
+      else none
+    | _, _, _, _, _, _, _, _ => none
+  | _ => none
+
+/-- are two requests forwarded as the same message (up to the fresh id), and what is forwarded
+    for the first one -/
+def handleFields (segs : List String) : String :=
+  match segs with
+  | [a, b] =>
+    match parseReqX (words a), parseReqX (words b) with
+    | some x, some y =>
+      let bx := dupReqX 1 x
+      (if bx = dupReqX 1 y then "same " else "diff ") ++ showBReq 1 bx.b ++
+        s!" i={bx.info} tb={bx.trafficBytes}"
+    | _, _ => "bad"
+  | _ => "bad"
+
 def handle (line : String) : String :=
   match splitTrim line ";" with
   | [] => "bad"
   | first :: ops =>
+    if (words first).filter (· ≠ "c15") = ["fields"] then handleFields ops else
     match parseCfg (words first) with
     | none => "bad-cfg"
     | some c =>
